@@ -160,8 +160,12 @@ func runC04(res *Result, d *Driver, tier string, seed uint64) {
 				r.WorkDir = "/"
 			}
 		}
+		wantHost, wantDom := "", ""
 		if hostn && newUts {
-			r.HostName, r.DomainName = "verifhost", "verifdom"
+			// names of different lengths, and each alone: the length passed with one must not come from the other
+			pair := [][2]string{{"verifhost", "verifdom"}, {"h", "a-much-longer-domain.example"}, {"", "only-domain.example"}, {"only-a-host-name", ""}, {"samelen1", "samelen2"}}[rng.Intn(5)]
+			r.HostName, r.DomainName = pair[0], pair[1]
+			wantHost, wantDom = pair[0], pair[1]
 		}
 		desc := fmt.Sprintf("cred=%v groups=%v nosetgroups=%v dropcaps=%v nnp=%v seccomp=%v sync=%v ucas=%v pid=%v mnt=%v uts=%v ipc=%v cgroup=%v net=%v workdir=%v host=%v pivot=%v",
 			cred, groups, noSetGroups, dropCaps, nnp, secc, syncF, ucas, newPid, newNs, newUts, newIpc, newCg, newNet, workdir, hostn && newUts, pivot)
@@ -206,8 +210,11 @@ func runC04(res *Result, d *Driver, tier string, seed uint64) {
 			if !strings.Contains(out, "cwd "+wd+"\n") {
 				bad = append(bad, "cwd: want "+wd+" got "+out)
 			}
-			if hostn && newUts && (uts["host"] != "verifhost" || uts["domain"] != "verifdom") {
-				bad = append(bad, "uts: "+fmt.Sprint(uts))
+			if wantHost != "" && uts["host"] != wantHost {
+				bad = append(bad, fmt.Sprintf("host name %q, requested %q", uts["host"], wantHost))
+			}
+			if wantDom != "" && uts["domain"] != wantDom {
+				bad = append(bad, fmt.Sprintf("domain name %q, requested %q", uts["domain"], wantDom))
 			}
 			for name, on := range map[string]bool{"pid": false, "mnt": newNs, "uts": newUts, "ipc": newIpc, "cgroup": newCg || ucas, "net": newNet, "user": false} {
 				if name == "pid" {
@@ -232,6 +239,25 @@ func runC04(res *Result, d *Driver, tier string, seed uint64) {
 		}
 		if i == 0 {
 			res.Sample("launch " + desc + " => " + strings.ReplaceAll(strings.TrimSpace(out), "\n", " | "))
+		}
+	}
+	// user namespace with supplementary groups: either the launch fails loudly (the kernel refuses setgroups when the gid map
+	// was written with setgroups denied) or the program has exactly the requested groups — never a silent start without them
+	for _, enable := range []bool{false, true} {
+		r := &forkexec.Runner{CloneFlags: unix.CLONE_NEWUSER,
+			UIDMappings:                []syscall.SysProcIDMap{{ContainerID: 0, HostID: 0, Size: 10}},
+			GIDMappings:                []syscall.SysProcIDMap{{ContainerID: 0, HostID: 0, Size: 10}},
+			GIDMappingsEnableSetgroups: enable,
+			Credential:                 &syscall.Credential{Uid: 1, Gid: 2, Groups: []uint32{3, 4}}}
+		out, err, ws := launchProbe(r, "report creds;exit 0")
+		desc := fmt.Sprintf("user namespace, gid map with setgroups enabled=%v, Credential{1,2,groups 3,4}", enable)
+		res.Case(desc, true, "launch-userns-groups")
+		if err == nil && ws.Exited() && ws.ExitStatus() == 0 {
+			if g := parseKV(out, "creds")["groups"]; g != "3,4" {
+				res.Mismatch(Mismatch{Kind: "oracle", What: "the program started without the requested supplementary groups (a refused step was skipped silently) (C04)", Input: desc, Impl: "groups=" + g + " " + strings.TrimSpace(out), Model: "launch error, or groups=3,4", Oracle: "violates"})
+			}
+		} else if enable {
+			res.Mismatch(Mismatch{Kind: "oracle", What: "launch with allowed setgroups failed", Input: desc, Impl: fmt.Sprint(err, ws, out), Oracle: "unknown"})
 		}
 	}
 	// part C: the runners themselves with the "no filter" option set: a Runner without Seccomp must start the program
